@@ -2,6 +2,7 @@ use std::collections::HashMap;
 use std::fs::File;
 use std::io::{ErrorKind, Read, Seek, SeekFrom, Write};
 
+use crate::common::read_declared_bytes;
 use crate::io_ext::ReadExt;
 use std::path::Path;
 
@@ -2274,9 +2275,7 @@ fn collect_embedded_skin_data<R: Read + Seek>(
         // Read indices data (u16 per entry)
         let indices = if n_indices > 0 && ofs_indices > 0 {
             reader.seek(SeekFrom::Start(ofs_indices as u64))?;
-            let mut data = vec![0u8; n_indices as usize * 2];
-            reader.read_exact(&mut data)?;
-            data
+            read_declared_bytes(reader, n_indices as usize * 2)?
         } else {
             Vec::new()
         };
@@ -2284,9 +2283,7 @@ fn collect_embedded_skin_data<R: Read + Seek>(
         // Read triangles data (u16 per entry)
         let triangles = if n_triangles > 0 && ofs_triangles > 0 {
             reader.seek(SeekFrom::Start(ofs_triangles as u64))?;
-            let mut data = vec![0u8; n_triangles as usize * 2];
-            reader.read_exact(&mut data)?;
-            data
+            read_declared_bytes(reader, n_triangles as usize * 2)?
         } else {
             Vec::new()
         };
@@ -2295,9 +2292,7 @@ fn collect_embedded_skin_data<R: Read + Seek>(
         let properties = if n_properties > 0 && ofs_properties > 0 {
             reader.seek(SeekFrom::Start(ofs_properties as u64))?;
             // Properties are typically 4 bytes per entry (bone indices + padding)
-            let mut data = vec![0u8; n_properties as usize * 4];
-            reader.read_exact(&mut data)?;
-            data
+            read_declared_bytes(reader, n_properties as usize * 4)?
         } else {
             Vec::new()
         };
@@ -2305,9 +2300,7 @@ fn collect_embedded_skin_data<R: Read + Seek>(
         // Read submeshes data
         let submeshes = if n_submeshes > 0 && ofs_submeshes > 0 {
             reader.seek(SeekFrom::Start(ofs_submeshes as u64))?;
-            let mut data = vec![0u8; n_submeshes as usize * submesh_size];
-            reader.read_exact(&mut data)?;
-            data
+            read_declared_bytes(reader, n_submeshes as usize * submesh_size)?
         } else {
             Vec::new()
         };
@@ -2316,9 +2309,7 @@ fn collect_embedded_skin_data<R: Read + Seek>(
         // SkinBatch: 2 bytes (flags/priority) + 22 bytes (11 u16 fields) = 24 bytes
         let batches = if n_batches > 0 && ofs_batches > 0 {
             reader.seek(SeekFrom::Start(ofs_batches as u64))?;
-            let mut data = vec![0u8; n_batches as usize * 24];
-            reader.read_exact(&mut data)?;
-            data
+            read_declared_bytes(reader, n_batches as usize * 24)?
         } else {
             Vec::new()
         };
@@ -2533,7 +2524,7 @@ impl M2Model {
                     let end_pos = current_pos + header.size as u64;
 
                     let count = header.size / 4; // Each ID is 4 bytes
-                    let mut ids = Vec::with_capacity(count as usize);
+                    let mut ids = Vec::with_capacity((count as usize).min(4096));
 
                     for _ in 0..count {
                         ids.push(reader.read_u32_le()?);
@@ -2550,7 +2541,7 @@ impl M2Model {
                     let end_pos = current_pos + header.size as u64;
 
                     let count = header.size / 4; // Each ID is 4 bytes
-                    let mut ids = Vec::with_capacity(count as usize);
+                    let mut ids = Vec::with_capacity((count as usize).min(4096));
 
                     for _ in 0..count {
                         ids.push(reader.read_u32_le()?);
@@ -2567,7 +2558,7 @@ impl M2Model {
                     let end_pos = current_pos + header.size as u64;
 
                     let count = header.size / 4; // Each ID is 4 bytes
-                    let mut ids = Vec::with_capacity(count as usize);
+                    let mut ids = Vec::with_capacity((count as usize).min(4096));
 
                     for _ in 0..count {
                         ids.push(reader.read_u32_le()?);
@@ -2608,7 +2599,7 @@ impl M2Model {
                     let end_pos = current_pos + header.size as u64;
 
                     let count = header.size / 4; // Each ID is 4 bytes
-                    let mut ids = Vec::with_capacity(count as usize);
+                    let mut ids = Vec::with_capacity((count as usize).min(4096));
 
                     for _ in 0..count {
                         ids.push(reader.read_u32_le()?);
@@ -2635,7 +2626,7 @@ impl M2Model {
                     }
 
                     let count = header.size / LOD_LEVEL_SIZE;
-                    let mut levels = Vec::with_capacity(count as usize);
+                    let mut levels = Vec::with_capacity((count as usize).min(4096));
 
                     for _ in 0..count {
                         use crate::chunks::file_references::LodLevel;
@@ -2664,8 +2655,7 @@ impl M2Model {
                     let _end_pos = current_pos + header.size as u64;
 
                     // Create a limited reader for this chunk
-                    let mut chunk_data = vec![0u8; header.size as usize];
-                    reader.read_exact(&mut chunk_data)?;
+                    let chunk_data = read_declared_bytes(reader, header.size as usize)?;
                     let chunk_cursor = std::io::Cursor::new(chunk_data);
                     let mut chunk_reader = ChunkReader::new(chunk_cursor, header.clone())?;
 
@@ -2680,8 +2670,7 @@ impl M2Model {
                     let _end_pos = current_pos + header.size as u64;
 
                     // Create a limited reader for this chunk
-                    let mut chunk_data = vec![0u8; header.size as usize];
-                    reader.read_exact(&mut chunk_data)?;
+                    let chunk_data = read_declared_bytes(reader, header.size as usize)?;
                     let chunk_cursor = std::io::Cursor::new(chunk_data);
                     let mut chunk_reader = ChunkReader::new(chunk_cursor, header.clone())?;
 
@@ -2696,8 +2685,7 @@ impl M2Model {
                     let _end_pos = current_pos + header.size as u64;
 
                     // Create a limited reader for this chunk
-                    let mut chunk_data = vec![0u8; header.size as usize];
-                    reader.read_exact(&mut chunk_data)?;
+                    let chunk_data = read_declared_bytes(reader, header.size as usize)?;
                     let chunk_cursor = std::io::Cursor::new(chunk_data);
                     let mut chunk_reader = ChunkReader::new(chunk_cursor, header.clone())?;
 
@@ -2712,8 +2700,7 @@ impl M2Model {
                     let _end_pos = current_pos + header.size as u64;
 
                     // Create a limited reader for this chunk
-                    let mut chunk_data = vec![0u8; header.size as usize];
-                    reader.read_exact(&mut chunk_data)?;
+                    let chunk_data = read_declared_bytes(reader, header.size as usize)?;
                     let chunk_cursor = std::io::Cursor::new(chunk_data);
                     let mut chunk_reader = ChunkReader::new(chunk_cursor, header.clone())?;
 
@@ -2727,8 +2714,7 @@ impl M2Model {
                     let _end_pos = current_pos + header.size as u64;
 
                     // Create a limited reader for this chunk
-                    let mut chunk_data = vec![0u8; header.size as usize];
-                    reader.read_exact(&mut chunk_data)?;
+                    let chunk_data = read_declared_bytes(reader, header.size as usize)?;
                     let chunk_cursor = std::io::Cursor::new(chunk_data);
                     let mut chunk_reader = ChunkReader::new(chunk_cursor, header.clone())?;
 
@@ -2742,8 +2728,7 @@ impl M2Model {
                     let _end_pos = current_pos + header.size as u64;
 
                     // Create a limited reader for this chunk
-                    let mut chunk_data = vec![0u8; header.size as usize];
-                    reader.read_exact(&mut chunk_data)?;
+                    let chunk_data = read_declared_bytes(reader, header.size as usize)?;
                     let chunk_cursor = std::io::Cursor::new(chunk_data);
                     let mut chunk_reader = ChunkReader::new(chunk_cursor, header.clone())?;
 
@@ -2757,8 +2742,7 @@ impl M2Model {
                     let _end_pos = current_pos + header.size as u64;
 
                     // Create a limited reader for this chunk
-                    let mut chunk_data = vec![0u8; header.size as usize];
-                    reader.read_exact(&mut chunk_data)?;
+                    let chunk_data = read_declared_bytes(reader, header.size as usize)?;
                     let chunk_cursor = std::io::Cursor::new(chunk_data);
                     let mut chunk_reader = ChunkReader::new(chunk_cursor, header.clone())?;
 
@@ -2772,8 +2756,7 @@ impl M2Model {
                     let _end_pos = current_pos + header.size as u64;
 
                     // Create a limited reader for this chunk
-                    let mut chunk_data = vec![0u8; header.size as usize];
-                    reader.read_exact(&mut chunk_data)?;
+                    let chunk_data = read_declared_bytes(reader, header.size as usize)?;
                     let chunk_cursor = std::io::Cursor::new(chunk_data);
                     let mut chunk_reader = ChunkReader::new(chunk_cursor, header.clone())?;
 
@@ -2787,8 +2770,7 @@ impl M2Model {
                     let _end_pos = current_pos + header.size as u64;
 
                     // Create a limited reader for this chunk
-                    let mut chunk_data = vec![0u8; header.size as usize];
-                    reader.read_exact(&mut chunk_data)?;
+                    let chunk_data = read_declared_bytes(reader, header.size as usize)?;
                     let chunk_cursor = std::io::Cursor::new(chunk_data);
                     let mut chunk_reader = ChunkReader::new(chunk_cursor, header.clone())?;
 
@@ -2802,8 +2784,7 @@ impl M2Model {
                     let _end_pos = current_pos + header.size as u64;
 
                     // Create a limited reader for this chunk
-                    let mut chunk_data = vec![0u8; header.size as usize];
-                    reader.read_exact(&mut chunk_data)?;
+                    let chunk_data = read_declared_bytes(reader, header.size as usize)?;
                     let chunk_cursor = std::io::Cursor::new(chunk_data);
                     let mut chunk_reader = ChunkReader::new(chunk_cursor, header.clone())?;
 
@@ -2817,8 +2798,7 @@ impl M2Model {
                     let _end_pos = current_pos + header.size as u64;
 
                     // Create a limited reader for this chunk
-                    let mut chunk_data = vec![0u8; header.size as usize];
-                    reader.read_exact(&mut chunk_data)?;
+                    let chunk_data = read_declared_bytes(reader, header.size as usize)?;
                     let chunk_cursor = std::io::Cursor::new(chunk_data);
                     let mut chunk_reader = ChunkReader::new(chunk_cursor, header.clone())?;
 
@@ -2832,8 +2812,7 @@ impl M2Model {
                     let _end_pos = current_pos + header.size as u64;
 
                     // Create a limited reader for this chunk
-                    let mut chunk_data = vec![0u8; header.size as usize];
-                    reader.read_exact(&mut chunk_data)?;
+                    let chunk_data = read_declared_bytes(reader, header.size as usize)?;
                     let chunk_cursor = std::io::Cursor::new(chunk_data);
                     let mut chunk_reader = ChunkReader::new(chunk_cursor, header.clone())?;
 
@@ -2847,8 +2826,7 @@ impl M2Model {
                     let _end_pos = current_pos + header.size as u64;
 
                     // Create a limited reader for this chunk
-                    let mut chunk_data = vec![0u8; header.size as usize];
-                    reader.read_exact(&mut chunk_data)?;
+                    let chunk_data = read_declared_bytes(reader, header.size as usize)?;
                     let chunk_cursor = std::io::Cursor::new(chunk_data);
                     let mut chunk_reader = ChunkReader::new(chunk_cursor, header.clone())?;
 
@@ -2863,8 +2841,7 @@ impl M2Model {
                     let _end_pos = current_pos + header.size as u64;
 
                     // Create a limited reader for this chunk
-                    let mut chunk_data = vec![0u8; header.size as usize];
-                    reader.read_exact(&mut chunk_data)?;
+                    let chunk_data = read_declared_bytes(reader, header.size as usize)?;
                     let chunk_cursor = std::io::Cursor::new(chunk_data);
                     let mut chunk_reader = ChunkReader::new(chunk_cursor, header.clone())?;
 
@@ -2878,8 +2855,7 @@ impl M2Model {
                     let _end_pos = current_pos + header.size as u64;
 
                     // Create a limited reader for this chunk
-                    let mut chunk_data = vec![0u8; header.size as usize];
-                    reader.read_exact(&mut chunk_data)?;
+                    let chunk_data = read_declared_bytes(reader, header.size as usize)?;
                     let chunk_cursor = std::io::Cursor::new(chunk_data);
                     let mut chunk_reader = ChunkReader::new(chunk_cursor, header.clone())?;
 
@@ -2893,8 +2869,7 @@ impl M2Model {
                     let _end_pos = current_pos + header.size as u64;
 
                     // Create a limited reader for this chunk
-                    let mut chunk_data = vec![0u8; header.size as usize];
-                    reader.read_exact(&mut chunk_data)?;
+                    let chunk_data = read_declared_bytes(reader, header.size as usize)?;
                     let chunk_cursor = std::io::Cursor::new(chunk_data);
                     let mut chunk_reader = ChunkReader::new(chunk_cursor, header.clone())?;
 
@@ -2908,8 +2883,7 @@ impl M2Model {
                     let _end_pos = current_pos + header.size as u64;
 
                     // Create a limited reader for this chunk
-                    let mut chunk_data = vec![0u8; header.size as usize];
-                    reader.read_exact(&mut chunk_data)?;
+                    let chunk_data = read_declared_bytes(reader, header.size as usize)?;
                     let chunk_cursor = std::io::Cursor::new(chunk_data);
                     let mut chunk_reader = ChunkReader::new(chunk_cursor, header.clone())?;
 
@@ -2923,8 +2897,7 @@ impl M2Model {
                     let _end_pos = current_pos + header.size as u64;
 
                     // Create a limited reader for this chunk
-                    let mut chunk_data = vec![0u8; header.size as usize];
-                    reader.read_exact(&mut chunk_data)?;
+                    let chunk_data = read_declared_bytes(reader, header.size as usize)?;
                     let chunk_cursor = std::io::Cursor::new(chunk_data);
                     let mut chunk_reader = ChunkReader::new(chunk_cursor, header.clone())?;
 
@@ -2938,8 +2911,7 @@ impl M2Model {
                     let _end_pos = current_pos + header.size as u64;
 
                     // Create a limited reader for this chunk
-                    let mut chunk_data = vec![0u8; header.size as usize];
-                    reader.read_exact(&mut chunk_data)?;
+                    let chunk_data = read_declared_bytes(reader, header.size as usize)?;
                     let chunk_cursor = std::io::Cursor::new(chunk_data);
                     let mut chunk_reader = ChunkReader::new(chunk_cursor, header.clone())?;
 
@@ -2953,8 +2925,7 @@ impl M2Model {
                     let _end_pos = current_pos + header.size as u64;
 
                     // Create a limited reader for this chunk
-                    let mut chunk_data = vec![0u8; header.size as usize];
-                    reader.read_exact(&mut chunk_data)?;
+                    let chunk_data = read_declared_bytes(reader, header.size as usize)?;
                     let chunk_cursor = std::io::Cursor::new(chunk_data);
                     let mut chunk_reader = ChunkReader::new(chunk_cursor, header.clone())?;
 
@@ -2968,8 +2939,7 @@ impl M2Model {
                     let _end_pos = current_pos + header.size as u64;
 
                     // Create a limited reader for this chunk
-                    let mut chunk_data = vec![0u8; header.size as usize];
-                    reader.read_exact(&mut chunk_data)?;
+                    let chunk_data = read_declared_bytes(reader, header.size as usize)?;
                     let chunk_cursor = std::io::Cursor::new(chunk_data);
                     let mut chunk_reader = ChunkReader::new(chunk_cursor, header.clone())?;
 
